@@ -152,6 +152,9 @@ class ConstBitStream(Bits):
 
         """
         s = Bits.__and__(self, bs)
+        if s is self:
+            # Don't reset the position of this object - use a new one for the result.
+            s = self.__copy__()
         s._pos = 0
         return s
 
@@ -164,6 +167,9 @@ class ConstBitStream(Bits):
 
         """
         s = Bits.__or__(self, bs)
+        if s is self:
+            # Don't reset the position of this object - use a new one for the result.
+            s = self.__copy__()
         s._pos = 0
         return s
 
